@@ -120,6 +120,33 @@ def run_property(pid, tier, seed, relock=False, verbose=False):
             by_backend[r.backend] = by_backend.get(r.backend, 0) + 1
             solver_time += r.secs
 
+    if P.get('alias_frames'):
+        # frame / freshness obligations of the public functions whose bodies the VC generator does not interpret: ownership analysis
+        # of the real FunctionDefs (vk/frames.py); one obligation per mutation site and per return
+        from vk import frames
+        an = frames.from_contracts(prog, db)
+        skip = set(P['functions'])
+        for q in sorted(prog.funcs):
+            fi = prog.funcs[q]
+            if fi.cls is not None or q in skip or not any(q.startswith(m + '.') for m in P['alias_frames']):
+                continue
+            res = an.analyse(q)
+            claimed = any(k.startswith('%s:%s/' % (pid, q)) and v != 'open' for k, v in lock.items()) if not relock else False
+            if res['status'] != 'ok':
+                if claimed:
+                    degraded.append((q, 'ownership analysis gives no verdict: ' + res['why']))
+                    print('DEGRADED function=%s reason=ownership analysis gives no verdict: %s' % (q, res['why'][:200]))
+                continue
+            functions.append({'name': q, 'sha256': prog.sha[fi.module], 'obligations': len(res['obligations']), 'paths': 0, 'degraded': None, 'by': 'ownership analysis'})
+            for ob in res['obligations']:
+                d = {'id': ob['id'], 'expect': 'unsat', 'hyps': 0, 'meta': {'text': ob['text'], 'line': ob['line'], 'kind': ob['kind']},
+                     'verdict': 'unsat' if ob['ok'] else 'unknown', 'backend': 'alias-analysis', 'secs': 0.0,
+                     'reason': '' if ob['ok'] else ob['text'], 'model': None, 'rl': 0, 'h': 'A'}
+                o, r = O(d), R(d)
+                obligations.append(o); results.append(r); fn_of[o.id] = q
+                by_backend[r.backend] = by_backend.get(r.backend, 0) + 1
+        assumptions.add('A-VIEWCOPY:tables of vk/frames.py (numpy functions / methods returning fresh objects, views, or mutating an argument); a call in none of the tables gives no verdict')
+
     proof_obls = [(o, r) for o, r in zip(obligations, results) if o.expect == 'unsat']
     guards = [(o, r) for o, r in zip(obligations, results) if o.expect != 'unsat']
     discharged = [(o, r) for o, r in proof_obls if r.verdict == 'unsat']
